@@ -2,7 +2,7 @@
 non-contiguous categorical models, lookup models and the conversion graph.  Same content as the
 C03 / C05 / C09 / C19 entries of lib/props.py in the models work copy."""
 PROPS = {'C03': {'coq': ['Props.C03'],
-         'fams': [('fam_models', 'gen_valid', 600, 40000), ('fam_models', 'gen_conv', 150, 8000)],
+         'fams': [('fam_models', 'gen_valid', 600, 20000), ('fam_models', 'gen_conv', 150, 8000)],
          'anchors': ['src/stream/model.rs',
                      'src/stream/model/uniform.rs',
                      'src/stream/model/categorical.rs',
@@ -29,7 +29,7 @@ PROPS = {'C03': {'coq': ['Props.C03'],
                       "model/implementation correspondence + direct C03 predicate on the implementation's dumps",
          'design_ref': 'DESIGN.md section 4, C03'},
  'C05': {'coq': ['Props.C05'],
-         'fams': [('fam_models', 'gen_conv', 450, 30000), ('fam_models', 'gen_valid', 300, 20000)],
+         'fams': [('fam_models', 'gen_conv', 450, 15000), ('fam_models', 'gen_valid', 300, 10000)],
          'anchors': ['src/stream/model.rs',
                      'src/stream/model/uniform.rs',
                      'src/stream/model/categorical.rs',
@@ -54,7 +54,7 @@ PROPS = {'C03': {'coq': ['Props.C03'],
                       'correspondence + cross-representation oracle',
          'design_ref': 'DESIGN.md section 4, C05'},
  'C09': {'coq': ['Props.C09'],
-         'fams': [('fam_models', 'gen_valid', 600, 40000)],
+         'fams': [('fam_models', 'gen_valid', 600, 20000)],
          'anchors': ['src/stream/model.rs',
                      'src/stream/model/uniform.rs',
                      'src/stream/model/categorical.rs',
@@ -74,7 +74,7 @@ PROPS = {'C03': {'coq': ['Props.C03'],
          'technique': 'Coq proof + correspondence + direct oracle (out-of-support => None)',
          'design_ref': 'DESIGN.md section 4, C09'},
  'C19': {'coq': ['Props.C19'],
-         'fams': [('fam_models', 'gen_malformed', 900, 60000), ('fam_models', 'gen_valid', 300, 20000)],
+         'fams': [('fam_models', 'gen_malformed', 900, 30000), ('fam_models', 'gen_valid', 300, 10000)],
          'anchors': ['src/stream/model.rs',
                      'src/stream/model/uniform.rs',
                      'src/stream/model/categorical.rs',
